@@ -103,7 +103,7 @@ impl Loader {
 }
 
 /// consistency of a store that a loader returned: C01 (reverse lookups = forward references), C02 (no dangling), C03 (ids resolve to their items)
-fn consistency(store: &AnnotationStore) -> Option<String> {
+pub fn consistency(store: &AnnotationStore) -> Option<String> {
     let r = catch(|| {
         if let Some(f) = check_reverse(store).into_iter().next() {
             return Some(format!("C01:{}:{}", f.accessor, f.symptom));
@@ -136,6 +136,11 @@ fn consistency(store: &AnnotationStore) -> Option<String> {
                     if s.annotationdata(id).map(|x| x.handle()) != Some(d.handle()) {
                         return Some("C03:data-id-does-not-resolve-to-itself".to_string());
                     }
+                }
+            }
+            for k in s.keys() {
+                if s.key(k.as_str()).map(|x| x.handle()) != Some(k.handle()) {
+                    return Some("C03:key-id-does-not-resolve-to-itself".to_string());
                 }
             }
         }
